@@ -1,4 +1,7 @@
 import ExprModel.Proofs.OptInRange
+import ExprModel.Proofs.OptReject
+import ExprModel.Proofs.OptAnnot
+import ExprModel.Proofs.CheckerAnnot
 import ExprModel.Opt.ObsEq
 import ExprModel.Gen.Pipeline
 /-
@@ -249,11 +252,11 @@ theorem rangeKd_iff (k : Kind) : rangeKd (.num k) = true ↔ RangeK k := by
   cases k <;> simp [rangeKd, RangeK, Kind.rank]
 
 /-- a literal range becomes the constant with the same elements; only the allocation differs -/
-theorem constRange_equiv (m ma mb : Meta) (lo hi : Int) (st : St) (ha : IntLitOK ma lo) (hb : IntLitOK mb hi)
-    (hsz : inRange .int (hi - lo + 1)) (hs : c.rangeSizeSigned = true → lo ≤ hi + 1) (ctx : Ctx) :
-    RelM (eval c ctx (constRangeRule (.binary m ".." (.int ma lo) (.int mb hi)) st).1)
+theorem constRange_equiv (fl : Flags) (m ma mb : Meta) (lo hi : Int) (st : St) (ha : IntLitOK ma lo) (hb : IntLitOK mb hi)
+    (hsz : fl.constRangeNoOverflow = false → inRange .int (hi - lo + 1)) (hs : c.rangeSizeSigned = true → lo ≤ hi + 1) (ctx : Ctx) :
+    RelM (eval c ctx (constRangeRule fl (.binary m ".." (.int ma lo) (.int mb hi)) st).1)
          (eval c ctx (.binary m ".." (.int ma lo) (.int mb hi))) :=
-  (constRange_sound _ (by simp only [ConstRangeOK]; exact fun _ => ⟨ha, hb, hsz, hs⟩) st).ev ctx
+  (constRange_sound fl _ (by simp only [ConstRangeOK]; exact fun _ => ⟨ha, hb, hsz, hs⟩) st).ev ctx
 
 /-- a ConstExpr call whose compile-time evaluation succeeds is replaced by its result: sound when the
     arguments evaluate to the values passed (#11) and the registered function is the environment's -/
@@ -301,20 +304,20 @@ theorem constArgs_eval (fl : Flags) (ctx : Ctx) : ∀ (args : List Node) (vs : L
 /-- A node-local rewrite whose result simulates the node it replaces, in every context, is preserved by
     the bottom-up traversal (`ast.Walk` with an `Exit`-only visitor), whatever the visitor's state.
     `reOK`: a `matches` node with a pre-compiled regexp has a literal pattern (parser invariant). -/
-theorem walk_congruence (ws : Bool) (rule : Rule) (hrule : ∀ N st, Sim c (rule N st).1 N)
+theorem walk_congruence (ws : Bool) (rule : Opt.Rule) (hrule : ∀ N st, Sim c (rule N st).1 N)
     (n : Node) (hn : reOK n = true) (st : St) : Sim c (walk ws rule n st).1 n :=
   walk_sim ws rule hrule n hn st
 
-theorem walkList_congruence (ws : Bool) (rule : Rule) (hrule : ∀ N st, Sim c (rule N st).1 N)
+theorem walkList_congruence (ws : Bool) (rule : Opt.Rule) (hrule : ∀ N st, Sim c (rule N st).1 N)
     (ns : List Node) (hn : reOKList ns = true) (st : St) : SimL c (walkList ws rule ns st).1 ns :=
   walkList_sim ws rule hrule ns hn st
 
-theorem walkOpt_congruence (ws : Bool) (rule : Rule) (hrule : ∀ N st, Sim c (rule N st).1 N)
+theorem walkOpt_congruence (ws : Bool) (rule : Opt.Rule) (hrule : ∀ N st, Sim c (rule N st).1 N)
     (o : Option Node) (hn : reOKOpt o = true) (st : St) : SimO c (walkOpt ws rule o st).1 o :=
   walkOpt_sim ws rule hrule o hn st
 
 /-- … and by the `for limit …` loop, for every number of iterations -/
-theorem repeat_congruence (ws : Bool) (rule : Rule) (hrule : ∀ N st, Sim c (rule N st).1 N)
+theorem repeat_congruence (ws : Bool) (rule : Opt.Rule) (hrule : ∀ N st, Sim c (rule N st).1 N)
     (k : Nat) (n n' : Node) (hn : reOK n = true) (h : repeatPass ws rule k n = .ok n') : Sim c n' n :=
   repeatPass_sim ws rule hrule k n n' hn h
 
@@ -328,42 +331,56 @@ def GuardOK (c : SCfg) (fl : Flags) (fns : ConstFns) : Pass → Node → Prop
   | .fold, N => FoldOKf fl N
   | .constExpr, N => ConstExprOK c fl fns N
   | .inRange, N => InRangeOK c fl N
-  | .constRange, N => ConstRangeOK c N
+  | .constRange, N => ConstRangeOK c fl N
 
-/-- the optimizer restricted to rewrite sites that satisfy their guards produces a tree that simulates
-    the original one -/
-theorem optimizeWith_sim (fl : Flags) (fns : ConstFns) (g : Guard)
-    (hg : ∀ p N, g p N = true → GuardOK c fl fns p N) (n n' : Node) (hn : reOK n = true)
+/-- the composition of the passes, from the soundness of each rule at the sites the filter lets through -/
+theorem optimizeWith_sim_core (fl : Flags) (fns : ConstFns) (g : Guard)
+    (h1 : ∀ N st, g .inArray N = true → Sim c (inArrayRule fl N st).1 N)
+    (h2 : ∀ N st, g .fold N = true → Sim c (foldRule fl c.world N st).1 N)
+    (h3 : ∀ N st, g .constExpr N = true → Sim c (constExprRule fl fns c.world N st).1 N)
+    (h4 : ∀ N st, g .inRange N = true → Sim c (inRangeRule fl N st).1 N)
+    (h5 : ∀ N st, g .constRange N = true → Sim c (constRangeRule fl N st).1 N)
+    (n n' : Node) (hn : reOK n = true)
     (h : optimizeWith g fl fns c.world n = .ok n') : Sim c n' n := by
   have s1 := walk_sim (c := c) fl.walkSliceNode (guarded g .inArray (inArrayRule fl))
-    (guarded_sim g .inArray _ (fun N st hN => inArray_sound fl N (hg _ _ hN) st)) n hn {}
+    (guarded_sim g .inArray _ h1) n hn {}
   unfold optimizeWith at h
   simp only [bind, Except.bind, pure, Except.pure] at h
   split at h
   · cases h
-  · rename_i n2 h2
+  · rename_i n2 e2
     have s2 := repeatPass_sim (c := c) fl.walkSliceNode (guarded g .fold (foldRule fl c.world))
-      (guarded_sim g .fold _ (fun N st hN => fold_sound_f fl c.world N (hg _ _ hN) st)) _ _ _ (s1.re hn) h2
+      (guarded_sim g .fold _ h2) _ _ _ (s1.re hn) e2
     have s12 := s2.trans s1
     have tail : ∀ n3, Sim c n3 n →
-        Sim c (walk fl.walkSliceNode (guarded g .constRange constRangeRule)
+        Sim c (walk fl.walkSliceNode (guarded g .constRange (constRangeRule fl))
           (walk fl.walkSliceNode (guarded g .inRange (inRangeRule fl)) n3 {}).1 {}).1 n := by
       intro n3 s123
       have s4 := walk_sim (c := c) fl.walkSliceNode (guarded g .inRange (inRangeRule fl))
-        (guarded_sim g .inRange _ (fun N st hN => inRange_sound fl N (hg _ _ hN) st)) n3 (s123.re hn) {}
+        (guarded_sim g .inRange _ h4) n3 (s123.re hn) {}
       have s1234 := s4.trans s123
-      have s5 := walk_sim (c := c) fl.walkSliceNode (guarded g .constRange constRangeRule)
-        (guarded_sim g .constRange _ (fun N st hN => constRange_sound N (hg _ _ hN) st)) _ (s1234.re hn) {}
+      have s5 := walk_sim (c := c) fl.walkSliceNode (guarded g .constRange (constRangeRule fl))
+        (guarded_sim g .constRange _ h5) _ (s1234.re hn) {}
       exact s5.trans s1234
     split at h
     · cases h; exact tail n2 s12
     · split at h
       · cases h
-      · rename_i n3 h3
+      · rename_i n3 e3
         have s3 := repeatPass_sim (c := c) fl.walkSliceNode (guarded g .constExpr (constExprRule fl fns c.world))
-          (guarded_sim g .constExpr _ (fun N st hN => constExpr_sound fl fns N (hg _ _ hN) st)) _ _ _ (s12.re hn) h3
+          (guarded_sim g .constExpr _ h3) _ _ _ (s12.re hn) e3
         cases h
         exact tail n3 (s3.trans s12)
+
+/-- the optimizer restricted to rewrite sites that satisfy their guards produces a tree that simulates
+    the original one -/
+theorem optimizeWith_sim (fl : Flags) (fns : ConstFns) (g : Guard)
+    (hg : ∀ p N, g p N = true → GuardOK c fl fns p N) (n n' : Node) (hn : reOK n = true)
+    (h : optimizeWith g fl fns c.world n = .ok n') : Sim c n' n :=
+  optimizeWith_sim_core fl fns g
+    (fun N st hN => inArray_sound fl N (hg _ _ hN) st) (fun N st hN => fold_sound_f fl c.world N (hg _ _ hN) st)
+    (fun N st hN => constExpr_sound fl fns N (hg _ _ hN) st) (fun N st hN => inRange_sound fl N (hg _ _ hN) st)
+    (fun N st hN => constRange_sound fl N (hg _ _ hN) st) n n' hn h
 
 /-- **Transparency, under the guards.**  Let `g` select rewrite sites at which the guards hold
     (`hg`), and suppose the optimizer did not rewrite anywhere else on `n` (`hrun`: the restricted and the
@@ -445,7 +462,7 @@ theorem fold_divzero_location (fl : Flags) (w : World) (m ma mb : Meta) (op : St
 
 /-- `in_array`, `in_range` and `const_range` never reject -/
 theorem other_passes_never_reject (fl : Flags) (N : Node) (st : St) :
-    (inArrayRule fl N st).2 = st ∧ (inRangeRule fl N st).2 = st ∧ (constRangeRule N st).2 = st := by
+    (inArrayRule fl N st).2 = st ∧ (inRangeRule fl N st).2 = st ∧ (constRangeRule fl N st).2 = st := by
   refine ⟨?_, ?_, ?_⟩
   · unfold inArrayRule
     split
@@ -465,8 +482,12 @@ theorem other_passes_never_reject (fl : Flags) (N : Node) (st : St) :
     · split
       · simp only []
         split
-        · rfl
-        · split <;> rfl
+        · split
+          · rfl
+          · split <;> rfl
+        · split
+          · rfl
+          · split <;> rfl
       · rfl
     · rfl
 
@@ -504,49 +525,52 @@ def optimize_transparent_goal (fl : Flags) : Prop :=
   ∀ (c : SCfg) (fns : ConstFns) (n n' : Node) (cast : Option Nat), reOK n = true → FnsOfEnv c fns →
     optimize fl fns c.world n = .ok n' → ObsRes (Spec.run c cast n').1 (Spec.run c cast n).1
 
-mutual
-def subnodes : Node → List Node
-  | .unary m op x => .unary m op x :: subnodes x
-  | .binary m op l r => .binary m op l r :: (subnodes l ++ subnodes r)
-  | .matches m h l r => .matches m h l r :: (subnodes l ++ subnodes r)
-  | .prop m x a b => .prop m x a b :: subnodes x
-  | .index m x i => .index m x i :: (subnodes x ++ subnodes i)
-  | .slice m x f t => .slice m x f t :: (subnodes x ++ subnodesOpt f ++ subnodesOpt t)
-  | .method m x a args b => .method m x a args b :: (subnodes x ++ subnodesList args)
-  | .func m a args b => .func m a args b :: subnodesList args
-  | .builtin m a args => .builtin m a args :: subnodesList args
-  | .closure m x => .closure m x :: subnodes x
-  | .cond m a b d => .cond m a b d :: (subnodes a ++ subnodes b ++ subnodes d)
-  | .array m xs => .array m xs :: subnodesList xs
-  | .map m xs => .map m xs :: subnodesList xs
-  | .pair m k v => .pair m k v :: (subnodes k ++ subnodes v)
-  | n => [n]
-def subnodesList : List Node → List Node
-  | [] => []
-  | n :: ns => subnodes n ++ subnodesList ns
-def subnodesOpt : Option Node → List Node
-  | none => []
-  | some n => subnodes n
-end
+/-- the tree contains an integer `/` or `%` whose operands are constant integer expressions (literals, unary
+    signs, `+ - * / %`, evaluated in Go's `int`) and whose divisor is zero — `OptProofs.dz`, defined on the
+    tree as written, before any folding -/
+def HasConstDivZero (n : Node) : Prop := dz n = true
 
-/-- a constant integer expression and its value in Go's `int` arithmetic -/
-inductive ConstInt : Node → Int → Prop
-  | lit (m v) : ConstInt (.int m v) v
-  | neg {x v} (m) : ConstInt x v → ConstInt (.unary m "-" x) (wrap .int (-v))
-  | pos {x v} (m) : ConstInt x v → ConstInt (.unary m "+" x) v
-  | add {l r a b} (m) : ConstInt l a → ConstInt r b → ConstInt (.binary m "+" l r) (wrap .int (a + b))
-  | sub {l r a b} (m) : ConstInt l a → ConstInt r b → ConstInt (.binary m "-" l r) (wrap .int (a - b))
-  | mul {l r a b} (m) : ConstInt l a → ConstInt r b → ConstInt (.binary m "*" l r) (wrap .int (a * b))
-  | div {l r a b} (m) : ConstInt l a → ConstInt r b → b ≠ 0 → ConstInt (.binary m "/" l r) (wrap .int (Int.tdiv a b))
-  | mod {l r a b} (m) : ConstInt l a → ConstInt r b → b ≠ 0 → ConstInt (.binary m "%" l r) (wrap .int (Int.tmod a b))
+example : HasConstDivZero (.binary {} "+" (.ident {} "x" false) (.binary {} "%" (.int {} 7) (.binary {} "-" (.int {} 1) (.int {} 1)))) := by
+  show dz _ = true; rfl
 
-def HasConstDivZero (n : Node) : Prop :=
-  ∃ m op l r a, .binary m op l r ∈ subnodes n ∧ (op = "/" ∨ op = "%") ∧ ConstInt l a ∧ ConstInt r 0
+/-- **The only trees the optimizer rejects**: if `optimizer.Optimize` fails, the tree contains a constant integer
+    division or modulo by zero, or the compile-time call of a ConstExpr function on literal arguments failed
+    (for every setting of the switches, every world, with or without ConstExpr functions). -/
+theorem optimize_rejects_only_divzero (fl : Flags) (fns : ConstFns) (w : World) (n : Node) (l : Loc)
+    (h : optimize fl fns w n = .error l) :
+    HasConstDivZero n ∨
+    ∃ name args id vs e, fns.lookup name = some id ∧ constArgs fl args = some vs ∧ w.call id vs = .error e := by
+  unfold optimize optimizeWith at h
+  simp only [bind, Except.bind, pure, Except.pure] at h
+  have hin := walk_back fl.walkSliceNode (guarded Guard.all .inArray (inArrayRule fl))
+    (guarded_backward _ _ _ (inArray_backward fl))
+    (guarded_err _ _ _ _ (fun N st hh => absurd (by rw [inArray_no_err]) hh)) n {}
+  have hfold := repeatPass_back fl.walkSliceNode (guarded Guard.all .fold (foldRule fl w))
+    (guarded_backward _ _ _ (fold_backward fl w)) (guarded_err _ _ _ _ (fold_err_dzHere fl w)) foldWalks
+    (walk fl.walkSliceNode (guarded Guard.all .inArray (inArrayRule fl)) n {}).1
+  split at h
+  · rename_i l' h2
+    exact .inl (hin.2.1 (hfold.1 _ h2))
+  · rename_i n2 h2
+    split at h
+    · cases h
+    · split at h
+      · rename_i l' h3
+        right
+        obtain ⟨N, st, he⟩ := repeatPass_errAt _ _ _ _ _ h3
+        have he' : (constExprRule fl fns w N st).2.err ≠ st.err := by
+          simp only [guarded, Guard.all, if_true] at he; exact he
+        obtain ⟨m, name, args, fast, id, vs, e, _, h1, h2', h3'⟩ := constExpr_rejects_only_failed_call fl fns w N st he'
+        exact ⟨name, args, id, vs, e, h1, h2', h3'⟩
+      · cases h
 
-/-- "the only expression the optimizer may reject … is one containing a constant integer division or
-    modulo by zero" (without ConstExpr functions; with them a failing call may also be rejected) -/
-def optimize_rejects_only_divzero_goal (fl : Flags) : Prop :=
-  ∀ (w : World) (n : Node) (l : Loc), optimize fl [] w n = .error l → HasConstDivZero n
+/-- without ConstExpr functions: "the only expression the optimizer may reject … is one containing a constant
+    integer division or modulo by zero" -/
+theorem optimize_rejects_only_divzero_plain (fl : Flags) (w : World) (n : Node) (l : Loc)
+    (h : optimize fl [] w n = .error l) : HasConstDivZero n := by
+  rcases optimize_rejects_only_divzero fl [] w n l h with h | ⟨_, _, _, _, _, h1, _⟩
+  · exact h
+  · cases h1
 
 /-! ## Witnesses of the reproduced deviations (model level; harness/c02.go exhibits each on the real code) -/
 
@@ -680,6 +704,22 @@ theorem budget_witness :
     (Spec.run (cfg (.map []) 10) none t13).1 = .error .budget :=
   ⟨⟨_, rfl, rfl⟩, ⟨_, rfl, rfl⟩, rfl⟩
 
+/-- `len(0..9223372036854775807)` -/
+def t14 : Node := .builtin (mI 0) "len" [.binary (mA 5) ".." (.int (mI 4) 0) (.int (mI 7) 9223372036854775807)]
+
+/-- the code as it is, with the proposed repair of const_range.go in place -/
+def Flags.next : Flags := { Flags.asIs with constRangeNoOverflow := true }
+
+/-- (c02:const-range-size-overflow) `size := max - min + 1` wraps below 1 for a range of 2^63 elements, and
+    const_range.go folds it to the EMPTY constant: `len(0..9223372036854775807)` is 0 when optimised, while the
+    range itself exceeds every budget.  With emptiness decided by `max < min` the fold is skipped.
+    (On the real VM the deviation is masked as long as OpRange computes its size with the same overflow.) -/
+theorem const_range_overflow_witness :
+    (∃ n', optimize Flags.asIs [] w0 t14 = .ok n' ∧ (Spec.run (cfg (.map [])) none n').1 = .ok (.int .int 0)) ∧
+    (Spec.run (cfg (.map [])) none t14).1 = .error .budget ∧
+    optimize Flags.next [] w0 t14 = .ok t14 :=
+  ⟨⟨_, rfl, rfl⟩, rfl, rfl⟩
+
 theorem fnsOfEnv_nil (c : SCfg) : FnsOfEnv c [] := by intro _ _ h; cases h
 
 /-- the full-strength statement is false of the code as it is … -/
@@ -792,7 +832,7 @@ def GuardNow (c : SCfg) (fns : ConstFns) : Pass → Node → Prop
     ∀ id, fns.lookup name = some id → ∀ vs, callMember c.world c.env name vs = c.world.call id vs
   | .inRange, .binary _ _ l (.binary _ _ (.int mf a) (.int mt b)) =>
     IntLitOK mf a ∧ IntLitOK mt b ∧ KindSound c l ∧ (c.rangeSizeSigned = true → a ≤ b + 1)
-  | .constRange, N => ConstRangeOK c N
+  | .constRange, N => ConstRangeOK c Flags.asIs N
   | _, _ => True
 
 /-- for the code as it is now the fold guard asks nothing about the annotation of the literals of `+ - * /` -/
@@ -896,5 +936,190 @@ example : ∃ n', optimize Flags.asIs [] w0 tNow = .ok n' ∧ (Spec.run (cfg env
   rcases optimize_transparent_asIs_partial (c := cfg envEx) [] gNow hg tNow tNow' rfl h1 h2 none with hb | he
   · exact absurd hb (by rw [show (Spec.run (cfg envEx) none tNow).1 = .ok (.bool true) from rfl]; intro h; cases h)
   · rw [he]; rfl
+
+
+/-! ## Transparency for type-checked trees: the annotation hypotheses discharged
+
+`wa n` (`Proofs/OptAnnot.lean`): integer literals are Go ints and the annotation of a unary sign / of `+ - * /` /
+of `%` over `int`-annotated operands agrees with its operand — what the type checker establishes
+(`check_wellAnnotated`) and every pass preserves (`walk_wa`, `fold_keepsWA`, `inArray_keepsWA`).  With it the
+fold sites need no annotation hypothesis any more. -/
+
+/-- what is still asked at a fold site: no `**` (IEEE), literal operands of `%` annotated `int` (the checker
+    never retypes those), no literal-array fold (#12) -/
+def FoldRest : Node → Prop
+  | .binary _ op (.int ma _) (.int mb _) => op ≠ "**" ∧ (op = "%" → plainKd ma.kd = true ∧ plainKd mb.kd = true)
+  | .array _ xs => xs.isEmpty = true ∨ (allInts xs = none ∧ allStrs xs = none)
+  | _ => True
+
+theorem fold_sound_wa (fl : Flags) (hf : fl.foldPlainOnly = true) (N : Node) (hw : wa N = true) (hr : FoldRest N) (st : St) :
+    Sim c (foldRule fl c.world N st).1 N := by
+  have hh := wa_here N hw
+  have viaF : FoldOKf fl N → Sim c (foldRule fl c.world N st).1 N := fun h => fold_sound_f fl c.world N h st
+  unfold FoldRest at hr
+  split at hr
+  · -- both operands are integer literals
+    rename_i m op ma a mb b
+    have ha : inRange .int a := by
+      simp only [wa, waHere, Bool.and_eq_true, decide_eq_true_eq] at hw; exact hw.1.2
+    have hb : inRange .int b := by
+      simp only [wa, waHere, Bool.and_eq_true, decide_eq_true_eq] at hw; exact hw.2
+    obtain ⟨hpow, hmod⟩ := hr
+    by_cases h5 : op = "%"
+    · have pm : plainKd m.kd = true := by
+        have := hh
+        simp [waHere, arith4, h5, (hmod h5).1, (hmod h5).2, Node.kd, Node.getMeta] at this
+        exact this
+      exact viaF (by
+        simp only [FoldOKf]
+        exact ⟨hpow, ha, hb, fun _ => ⟨(hmod h5).1, (hmod h5).2, pm⟩, fun h => absurd h5 h⟩)
+    · by_cases hp : plainKd ma.kd = true ∧ plainKd mb.kd = true
+      · by_cases h4 : arith4 op = true
+        · have hk : m.kd = ma.kd := by
+            have := hh
+            simp [waHere, h4, hp.1, hp.2, Node.kd, Node.getMeta] at this
+            exact this.1
+          exact viaF (by
+            simp only [FoldOKf]
+            exact ⟨hpow, ha, hb, fun h => absurd h h5, fun _ => ⟨hk, fun _ => hp⟩⟩)
+        · -- no rewrite for this operator
+          have h4' : (op == "+" || op == "-" || op == "*" || op == "/") = false := by simpa [arith4] using h4
+          have e5 : (op == "%") = false := by simpa using h5
+          have e6 : (op == "**") = false := by simpa using hpow
+          simp only [foldRule, h4', e5, e6, Bool.false_eq_true, if_false]
+          exact sim_refl c _
+      · -- a retyped literal: the rule does not fire
+        have hp' : (plainKd ma.kd && plainKd mb.kd) = false := by
+          cases h1 : plainKd ma.kd <;> cases h2 : plainKd mb.kd <;> simp_all
+        have e5 : (op == "%") = false := by simpa using h5
+        have e6 : (op == "**") = false := by simpa using hpow
+        simp only [foldRule, hf, hp', Bool.not_false, Bool.and_self, if_true, e5, e6, Bool.false_eq_true, if_false]
+        split <;> exact sim_refl c _
+  · exact viaF (by simpa only [FoldOKf] using hr)
+  · -- not two integer literals, not an array: unary sign, strings, or nothing
+    rename_i h1 h2
+    cases N with
+    | unary m op x =>
+      cases x with
+      | int mi i =>
+        have hi : inRange .int i := by
+          simp only [wa, waHere, Bool.and_eq_true, decide_eq_true_eq] at hw; exact hw.2
+        by_cases hp : plainKd mi.kd = true
+        · by_cases ho : (op == "-" || op == "+") = true
+          · have hk : m.kd = mi.kd := by
+              have := hh
+              simp only [waHere, ho, hp, Bool.not_true, Bool.false_or, Node.kd, Node.getMeta] at this
+              simpa using this
+            exact viaF (by simp only [FoldOKf]; exact ⟨hi, hk, fun _ => hp⟩)
+          · have ho' : (op == "-") = false ∧ (op == "+") = false := by
+              cases h1 : (op == "-") <;> cases h2 : (op == "+") <;> simp_all
+            simp only [foldRule, hf, hp, Bool.not_true, Bool.and_false, Bool.false_eq_true, if_false, ho'.1, ho'.2]
+            exact sim_refl c _
+        · have hp' : plainKd mi.kd = false := by simpa using hp
+          simp only [foldRule, hf, hp', Bool.not_false, Bool.and_self, if_true]
+          exact sim_refl c _
+      | _ => exact viaF (by simp only [FoldOKf])
+    | binary m op l r => exact viaF (by
+        unfold FoldOKf
+        split
+        · rename_i heq; cases heq
+        · rename_i heq; cases heq; exact absurd rfl (h1 _ _ _ _ _ _)
+        · rename_i heq; cases heq
+        · trivial)
+    | array m xs => exact absurd rfl (h2 _ _)
+    | _ => exact viaF (by simp only [FoldOKf])
+
+/-- the filter `g`, additionally asking fold sites to be well annotated -/
+def withWA (g : Guard) : Guard := fun p N => g p N && (p != .fold || wa N)
+
+theorem withWA_other (g : Guard) (p : Pass) (hp : p ≠ .fold) (r : Opt.Rule) : guarded (withWA g) p r = guarded g p r := by
+  funext N st
+  have : (p != Pass.fold) = true := by simpa using hp
+  simp only [guarded, withWA, this, Bool.true_or, Bool.and_true]
+
+/-- on a well-annotated tree the additional filter changes nothing -/
+theorem optimizeWith_withWA (fl : Flags) (hf : fl.foldPlainOnly = true) (fns : ConstFns) (w : World) (g : Guard)
+    (n : Node) (hw : wa n = true) : optimizeWith (withWA g) fl fns w n = optimizeWith g fl fns w n := by
+  unfold optimizeWith
+  simp only [withWA_other g .inArray (by decide), withWA_other g .constExpr (by decide),
+    withWA_other g .inRange (by decide), withWA_other g .constRange (by decide)]
+  have hw1 := (walk_wa fl.walkSliceNode _ (guarded_keepsWA g .inArray _ (inArray_keepsWA fl)) n {} hw).1
+  rw [repeatPass_agree fl.walkSliceNode (guarded (withWA g) .fold (foldRule fl w)) (guarded g .fold (foldRule fl w))
+    (guarded_keepsWA g .fold _ (fold_keepsWA fl w hf))
+    (fun N st hN => by simp only [guarded, withWA, hN, Bool.or_true, Bool.and_true]) foldWalks _ hw1]
+
+/-- **Transparency of the optimizer as it is now, for well-annotated (type-checked) trees.**
+    Hypotheses that remain, at the sites where a rewrite fires (`g`, `hrun`):
+    `KindSound` of the left operand of `in` (the checker's soundness, C03), Go-int bounds of literal ranges whose
+    distance does not overflow, ConstExpr functions taken from the environment (`GuardNow`, passes other than
+    fold); at fold sites only `FoldRest`: no `**`, no literal-array fold (#12), `%` on `int`-annotated literals.
+    The conclusion excuses exactly a budget error of the original run (#13). -/
+theorem optimize_transparent_checked_partial (fns : ConstFns) (g : Guard)
+    (hg : ∀ p N, p ≠ .fold → g p N = true → GuardNow c fns p N)
+    (hgf : ∀ N, g .fold N = true → FoldRest N)
+    (n n' : Node) (hn : reOK n = true) (hw : wa n = true)
+    (hrun : optimizeWith g Flags.asIs fns c.world n = optimize Flags.asIs fns c.world n)
+    (h : optimize Flags.asIs fns c.world n = .ok n') (cast : Option Nat) :
+    (Spec.run c cast n).1 = .error .budget ∨ (Spec.run c cast n').1 = (Spec.run c cast n).1 := by
+  have hopt : optimizeWith (withWA g) Flags.asIs fns c.world n = .ok n' :=
+    (optimizeWith_withWA Flags.asIs rfl fns c.world g n hw).trans (hrun.trans h)
+  have hG : ∀ p N, p ≠ .fold → withWA g p N = true → GuardOK c Flags.asIs fns p N := by
+    intro p N hp hN
+    have : g p N = true := by simp only [withWA, Bool.and_eq_true] at hN; exact hN.1
+    exact guardNow_imp fns p N (hg p N hp this)
+  have hs : Sim c n' n := optimizeWith_sim_core Flags.asIs fns (withWA g)
+    (fun N st hN => inArray_sound _ N (hG .inArray N (by decide) hN) st)
+    (fun N st hN => by
+      simp only [withWA, Bool.and_eq_true, bne_self_eq_false, Bool.false_or] at hN
+      exact fold_sound_wa Flags.asIs rfl N hN.2 (hgf N hN.1) st)
+    (fun N st hN => constExpr_sound _ fns N (hG .constExpr N (by decide) hN) st)
+    (fun N st hN => inRange_sound _ N (hG .inRange N (by decide) hN) st)
+    (fun N st hN => constRange_sound _ N (hG .constRange N (by decide) hN) st) n n' hn hopt
+  have h0 := hs.ev [] {} {} (Int.le_refl _)
+  simp only [Spec.run]
+  rcases hu : eval c [] n {} with ⟨r, t⟩
+  rcases ho : eval c [] n' {} with ⟨r', t'⟩
+  rw [hu, ho] at h0
+  rcases h0 with h0 | ⟨h0, _⟩
+  · simp only at h0; subst h0; exact .inl rfl
+  · simp only at h0; subst h0
+    right
+    cases r' with
+    | error e => rfl
+    | ok v => cases cast <;> rfl
+
+/-! ## The bridge to the type checker (C03 ↔ C02) -/
+
+/-- a tree fresh from the parser (no annotations, integer literals are Go ints) is well annotated -/
+theorem parser_tree_wellAnnotated (n : Node) (h : CheckerAnnot.fresh n = true) : wa n = true :=
+  CheckerAnnot.fresh_wa n h
+
+/-- **`checker.Check` establishes the annotation discipline the optimizer relies on** (for the checker as it
+    is since 6162013: literals are retyped for numeric parameters only): the tree it returns for a
+    well-annotated input — a parser tree, or the result of a previous check, as in `expr.Compile`, which checks
+    twice — is well annotated. -/
+theorem check_wellAnnotated (cfg : CheckCfg) (hd : cfg.dt.retypeAnyParam = false) (n n' : Node) (t : OTy)
+    (hw : wa n = true) (h : check cfg n = .ok n' t) : wa n' = true :=
+  CheckerAnnot.check_wellAnnotated cfg hd n n' t hw h
+
+/-- the checker of /repo as it is satisfies the side condition -/
+example : TDefects.asIs.retypeAnyParam = false := rfl
+
+/-- **parse → check → check → optimize**: for a parser tree that the checker accepts (twice, as `expr.Compile`
+    does), the optimised tree has exactly the result of the checked tree unless the latter exceeds the budget —
+    under the hypotheses of `optimize_transparent_checked_partial` that are not about annotations. -/
+theorem compile_pipeline_transparent_partial (cfg : CheckCfg) (hd : cfg.dt.retypeAnyParam = false)
+    (fns : ConstFns) (g : Guard) (src n1 n2 n' : Node) (t1 t2 : OTy)
+    (hsrc : CheckerAnnot.fresh src = true)
+    (hc1 : check cfg src = .ok n1 t1) (hc2 : check cfg n1 = .ok n2 t2)
+    (hg : ∀ p N, p ≠ .fold → g p N = true → GuardNow c fns p N)
+    (hgf : ∀ N, g .fold N = true → FoldRest N)
+    (hn : reOK n2 = true)
+    (hrun : optimizeWith g Flags.asIs fns c.world n2 = optimize Flags.asIs fns c.world n2)
+    (h : optimize Flags.asIs fns c.world n2 = .ok n') (cast : Option Nat) :
+    (Spec.run c cast n2).1 = .error .budget ∨ (Spec.run c cast n').1 = (Spec.run c cast n2).1 :=
+  optimize_transparent_checked_partial fns g hg hgf n2 n' hn
+    (check_wellAnnotated cfg hd n1 n2 t2 (check_wellAnnotated cfg hd src n1 t1 (parser_tree_wellAnnotated src hsrc) hc1) hc2)
+    hrun h cast
 
 end ExprModel.C02
